@@ -394,6 +394,7 @@ pub fn run_check(prop: &dyn Property, tier_s: &str, cfg: &CheckConfig) -> i32 {
     // (seed index, scenario index within the seed, sanitizer report) of runs that died in the sanitizer build
     let mut memory_errors: Vec<(u64, usize, String)> = Vec::new();
     let mut active = workers.len();
+    let mut harness_panics = 0u32;
     while active > 0 {
         match rx.recv_timeout(Duration::from_millis(500)) {
             Ok(Msg::Begin(i, n)) => {
@@ -462,6 +463,9 @@ pub fn run_check(prop: &dyn Property, tier_s: &str, cfg: &CheckConfig) -> i32 {
                         Some(s) => format!("{s}"),
                         None => "unknown".into(),
                     };
+                    if status.and_then(|s| s.code()) == Some(3) {
+                        harness_panics += 1;
+                    }
                     let report = workers[i].stderr_path.as_ref().and_then(|p| std::fs::read_to_string(p).ok()).unwrap_or_default();
                     if workers[i].profile == "asan" && asan_kind(&report).is_some() {
                         memory_errors.push((at, workers[i].last_scen, report));
@@ -725,6 +729,10 @@ pub fn run_check(prop: &dyn Property, tier_s: &str, cfg: &CheckConfig) -> i32 {
         eprintln!("note: {} in-process determinism re-checks disagreed (memory errors were reported in this batch)", total.determinism_mismatches);
     } else if total.determinism_mismatches > 0 {
         eprintln!("harness error: {} of {} in-process determinism re-checks disagreed", total.determinism_mismatches, total.determinism_rechecks);
+        exit_code = exit_code.max(2);
+    }
+    if harness_panics > 0 {
+        eprintln!("harness error: {harness_panics} worker(s) panicked outside the guarded execution of a scenario (generator or oracle defect)");
         exit_code = exit_code.max(2);
     }
     if total.scenarios == 0 && exit_code == 0 {
